@@ -257,7 +257,7 @@ class SqliteStorage(AbstractStorage):
         # First, upsert events with id's set
         events_upsert = [e for e in events if e.id is not None]
         for e in events_upsert:
-            self.replace(bucket_id, e.id, e)
+            self._replace(bucket_id, e.id, e)
 
         # Then insert events without id's set
         events_insert = [e for e in events if e.id is None]
@@ -272,7 +272,9 @@ class SqliteStorage(AbstractStorage):
             + "VALUES ((SELECT rowid FROM buckets WHERE id = ?), ?, ?, ?)"
         )
         self.conn.executemany(query, event_rows)
-        self.conditional_commit(len(event_rows))
+        # Account for (and possibly commit) the whole batch at once, so that a
+        # commit triggered by its first statement doesn't leave the rest pending
+        self.conditional_commit(len(events_upsert) + len(event_rows))
 
     def replace_last(self, bucket_id, event):
         starttime = event.timestamp.timestamp() * 1000000
@@ -298,6 +300,11 @@ class SqliteStorage(AbstractStorage):
         return cursor.rowcount == 1
 
     def replace(self, bucket_id, event_id, event) -> bool:
+        self._replace(bucket_id, event_id, event)
+        self.conditional_commit(1)
+        return True
+
+    def _replace(self, bucket_id, event_id, event) -> None:
         starttime = event.timestamp.timestamp() * 1000000
         endtime = starttime + (event.duration.total_seconds() * 1000000)
         datastr = json.dumps(event.data)
@@ -307,8 +314,6 @@ class SqliteStorage(AbstractStorage):
                          datastr = ?
                      WHERE id = ? AND bucketrow = (SELECT rowid FROM buckets WHERE id = ?)"""
         self.conn.execute(query, [starttime, endtime, datastr, event_id, bucket_id])
-        self.conditional_commit(1)
-        return True
 
     def get_event(
         self,
